@@ -112,6 +112,11 @@ class C13Executor(SymListMixin, ET.ETreeMixin, Executor):
             return [(st, VReal(z3.RealVal(f"{fr.numerator}/{fr.denominator}")))]
         return super().construct(st, t, args, kwargs, node)
 
+    def to_str(self, st, v, formatted=False):
+        if isinstance(v, VExt) and v.sort == "TimeDelta" and not formatted:
+            return VStr(PYSTR_TD(v.t))
+        return super().to_str(st, v, formatted)
+
     def b_super(self, st, args, kwargs, node):
         return [(st, VExt("SuperProxy"))]
 
@@ -332,6 +337,7 @@ def dim_contracts(reg):
 PYCLASS = {"DateTime": ("datetime.datetime", "datetime.date"), "Date": ("datetime.date",), "Time": ("datetime.time",),
            "TimeDelta": ("datetime.timedelta",)}
 ISO = {k: z3.Function(f"isoformat_{k}", ext_sort(k), S) for k in ("DateTime", "Date", "Time")}
+PYSTR_TD = z3.Function("str_of_timedelta", ext_sort("TimeDelta"), S)
 
 
 def install_value_models(reg):
@@ -484,6 +490,11 @@ def value_contracts(reg):
         v, r = c.args["cell_value"], c.result
         if isinstance(v, VExt) and v.sort in ISO:
             return r.t == ISO[v.sort](v.t) if isinstance(r, VStr) else z3.BoolVal(False)
+        if isinstance(v, VExt) and v.sort == "TimeDelta":
+            # a duration has no ISO form in the statement's list: it keeps its value -- the object itself or its text form str(v)
+            if isinstance(r, VStr):
+                return r.t == PYSTR_TD(v.t)
+            return z3.BoolVal(isinstance(r, VExt) and r.sort == "TimeDelta" and r.t.eq(v.t))
         if v is NONE:
             return z3.BoolVal(r is NONE)
         if type(r) is not type(v):
@@ -575,15 +586,18 @@ def contracts(reg):
 
 
 # ================================================================= (b) bounded ==
-def _walker_job(name):
+def _walker_job(name, k=0, n=1):
     def job(repo, tier):
         import traceback
         from contracts import C13_bounded as Bm
         try:
+            Bm.PART = (k, n)
             return getattr(Bm, name)(repo, tier)
         except Exception:  # noqa
             return {"obligations": [], "errors": [{"function": f"C13 bounded walker {name}", "error": traceback.format_exc()[-1500:]}]}
-    job.__name__ = name
+        finally:
+            Bm.PART = (0, 1)
+    job.__name__ = f"{name}_{k}of{n}"
     return job
 
 
@@ -605,7 +619,9 @@ def model_invariants(repo, tier):
     return {"obligations": obls}
 
 
-EXTRA = [_walker_job(n) for n in ("w_docx", "w_odt", "w_odp", "w_pptx", "w_html", "w_epub", "w_xlsx", "w_xls", "w_ods", "w_iter")] + [model_invariants]
+SPLIT = {"w_xlsx": 5, "w_epub": 2, "w_html": 2, "w_xls": 2}     # long walkers are split over the process pool (same obligation ids, merged)
+EXTRA = [_walker_job(w, k, SPLIT.get(w, 1)) for w in ("w_xlsx", "w_epub", "w_html", "w_xls", "w_ods", "w_docx", "w_odt", "w_odp", "w_pptx", "w_iter")
+         for k in range(SPLIT.get(w, 1))] + [model_invariants]
 
 
 def known_findings(kf, violations, repo, tier):
@@ -652,10 +668,31 @@ def known_findings(kf, violations, repo, tier):
     return out
 
 
-TRUSTED = ["statement-level grid specification in contracts/C13.py / C13_bounded.py"]
-ASSUMED_MODELS = ["xml.etree.ElementTree.Element (contracts/etree_model.py): tag, text, get, find, findall (child steps), iter (pre-order), list()/for/len",
-                  "dict with string keys: keys() in insertion order, get(k)"]
+TRUSTED = ["statement-level grid specification (contracts/C13.py xls_table_spec / pptx grid, contracts/C13_bounded.py expected_grids / expected_sheet)",
+           "the mapping abstract shape -> element tree / event sequence / workbook of contracts/C13_bounded.py (validated natively: replay/C13.py builds real files from the same shapes)",
+           "parsers (ElementTree, html.parser, openpyxl, xlrd) present the source faithfully"]
+ASSUMED_MODELS = ["xml.etree.ElementTree.Element (contracts/etree_model.py): tag, text, get, find, findall (child steps), iter (pre-order), list()/for/len, next(iter, default)",
+                  "dict with string keys: keys() in insertion order, get(k)",
+                  "paragraph-text helpers (C02): docx _collect_text_from_element, odf _get_text_recursive, pptx _extract_text_from_paragraphs return the text of the element",
+                  "str.strip (idempotent), re '\\s+' -> ' ' , ' '.join(s.split()) = strip + collapse whitespace runs",
+                  "memo caches keyed by id(node) (html _node_cache): a hit equals a recomputation",
+                  "html.parser.HTMLParser.__init__ does not touch subclass fields; events of a well-formed document are start/data/end in document order",
+                  "openpyxl Worksheet.iter_rows(values_only=True): the rows of cell values; xlrd Book.sheets()/Sheet.nrows/ncols/cell(r,c)/Cell.ctype/value, XL_CELL_* = 0..6, xldate_as_tuple",
+                  "datetime/date/time.isoformat() is the ISO 8601 text; str(timedelta) is the duration's text",
+                  "text renderers _format_sheet_as_text / _format_table_as_text, ods _extract_annotations / _extract_images (not part of the grid)"]
 ASSUMPTIONS = ["PY-COMP: a comprehension / generator expression with a total effect-free element over a sequence is the element-wise image",
                "PY-MAX: max(it, default=d) is d for an empty iterable, else an upper bound that is attained",
-               "TREE-FINITE"]
-BOUNDED = []
+               "PY-FLOAT-REAL (finite floats as reals; float('<literal>') exact)", "TREE-FINITE",
+               "ISO text = ISO 8601 / RFC 3339 profile (date and time separated by 'T' or a space)",
+               "XL_CELL_BLANK cells do not occur (the reader opens workbooks without formatting_info)",
+               "sheet extent = used range (trailing empty rows / columns are not part of the source table)",
+               "cell text excludes the content of a table nested in the cell (that table is a table of its own: DESIGN 3 C13)",
+               "HTML / EPUB cell rule: block children separated by white space, inline pieces run together, white space normalised",
+               "NOT decided: RTF tables (regex pipeline), merged / covered cells, ODS repeat counts > 100 (C12), row-group wrappers other than header rows, "
+               "docx tables inside content controls or text boxes, PDF tables (heuristic by design)"]
+BOUNDED = ["walkers docx _extract_tables_from_context, odt _extract_tables, odp _extract_table, pptx _extract_table_from_graphic_frame, html _process_node(+_extract_table,_find_nodes), "
+           "epub table state machine: every document of the grammar in contracts/C13_bounded.py (1..2 tables, <= 2 x 2 ragged, cells with 0..2 paragraphs, one nested table of depth 1, "
+           "header-rows wrapper), paragraph texts symbolic",
+           "sheet builders xlsx _read_content_from_workbook(+_read_sheet_data,_is_table_name_row), xls _read_content + XlsSheet.get_table, ods _extract_sheet: sheets of 1..3 rows x 1..2 columns "
+           "over the cell kinds empty/text/int/float/bool/date, duplicate and empty first-row names; values symbolic (xls/xlsx first-row names and ods typed literals concrete)",
+           "iterate_tables of every content class: 0..3 stored tables on 0..3 units"]
